@@ -113,6 +113,11 @@ def with_extra_columns(rng, arr):
     k = int(rng.integers(1, 3))
     extra = np.column_stack([rng.integers(0, 3, len(a)).astype(float) if rng.random() < 0.6 else rng.normal(0, 50, len(a)) for _ in range(k)]) \
         if len(a) else np.zeros((0, k))
+    if len(a) and rng.random() < 0.3:
+        # the ignored columns may hold anything: a death/birth ratio that is inf for births at 0, a log-persistence that is -inf on
+        # the diagonal, nan as a "missing" marker
+        extra = extra.astype(float)
+        extra[rng.integers(0, len(a), int(rng.integers(1, 3))), int(rng.integers(0, k))] = float(rng.choice([np.inf, -np.inf, np.nan]))
     return np.column_stack([a, extra])
 
 
